@@ -17,6 +17,7 @@ func init() {
 			"D2 the cap is applied — getNewLength of both types is min(embedded getNewLength(range), limit field) and every growth of the bin array in the collapsing types takes its length from that method. "+
 			"D3 collapsed short-circuit — normalize returns the edge slot (0 / len−1) whenever the index is beyond the collapsing edge and the collapsed flag is set, and re-tests the flag after extending the range; the flag is raised only inside the type's own adjust (or helpers called only from it), Clear lowers it. "+
 			"D4 Copy keeps kind, limit and collapsed state (C14-D2 obligations are re-evaluated here for the two types). "+
+			"D6 same-kind merge and collapse shapes — every argument bin is added to the slot of its own index or, only when its index lies beyond the receiver's collapsing edge, to the edge slot; after a too-wide adjust the window is exactly the array (minIndex = newMax − len + 1 / maxIndex = newMin + len − 1), which is what bounds the span by the bin limit. "+
 			"D5 truncating integer division in the dense family's index arithmetic is applied only to widths (index coefficients cancel) or lengths — `(min+max+1)/2` rounds toward zero, i.e. the wrong way for negative midpoints, and shifts the window by one slot. "+
 			"NOT DECIDED: where folded weight lands, conservation of weight through adjust/shiftCounts, and merge safety of a store wider than 2·N into an empty collapsing store (needs the relational invariant maxIndex−minIndex+1 ≤ len(bins); recorded in DESIGN.md, not detectable by these rules).",
 		"one obligation per (collapsing type × promoted method), per growth site, per normalize path, per writer of the collapsed flag; exhaustive over method sets",
@@ -86,6 +87,7 @@ func runC05(c *Ctx) {
 		c05Normalize(c, ct)
 		c05Flag(c, ct)
 		c05CopyClear(c, ct)
+		c05MergeFold(c, ct)
 	}
 }
 
@@ -583,4 +585,176 @@ func c05Halving(c *Ctx, rule string) {
 		}
 	}
 	c.R.floor(rule, "integer divisions in dense-family index arithmetic", n, 2)
+}
+
+// c05MergeFold (C05-D6): the same-kind merge of a collapsing store adds every argument bin either to
+// the slot of its own index or — only for indexes beyond the receiver's collapsing edge — to the edge
+// slot; and a too-wide adjust leaves a window that is exactly len(bins) wide, anchored at the kept end.
+func c05MergeFold(c *Ctx, ct collapsingType) {
+	const rule = "C05-D6"
+	tname := ct.t.Obj().Name()
+	lowest := strings.Contains(tname, "Lowest")
+	f := c.P.DeclaredMethod(ct.t, "MergeWith")
+	if !c.mustFunc(rule, f, tname+".MergeWith") {
+		return
+	}
+	tc := newTermCtx(c.P)
+	recvBins := func(t *Term) bool { return t.Op == "field" && t.Sym == dr.bins && isRecvField(t.Args[0], ct.innerFld) }
+	argPart := func(t *Term, fld string) bool {
+		return t.Op == "field" && t.Sym == fld && t.Args[0].Op == "field" && t.Args[0].Sym == ct.innerFld && t.Args[0].Args[0].Op == "extract"
+	}
+	nEdge, nOwn := 0, 0
+	bad := ""
+	for _, b := range f.Blocks {
+		for _, in := range b.Instrs {
+			st, ok := in.(*ssa.Store)
+			if !ok {
+				continue
+			}
+			at, vt := tc.Of(st.Addr), tc.Of(st.Val)
+			if at.Op != "index" || !recvBins(at.Args[0]) {
+				continue
+			}
+			// value = same slot + o.bins[idx − o.offset]
+			var src *Term
+			if vt.isBin("+") {
+				for i := 0; i < 2; i++ {
+					if vt.Args[i].Key() == at.Key() {
+						src = vt.Args[1-i]
+					}
+				}
+			}
+			if src == nil || src.Op != "index" || !argPart(src.Args[0], dr.bins) {
+				bad = "store into the receiver's bins that is not `slot += argument.bins[…]`: " + vt.Key()
+				continue
+			}
+			sl := linearOf(src.Args[1])
+			var idx *Term
+			okSrc := sl.Const == 0 && len(sl.Coef) == 2
+			for k, co := range sl.Coef {
+				t := sl.Atoms[k]
+				switch {
+				case co == 1 && t.Op == "phi":
+					idx = t
+				case co == -1 && argPart(t, dr.offset):
+				default:
+					okSrc = false
+				}
+			}
+			if !okSrc || idx == nil {
+				bad = "argument bin is not read at idx − argument.offset: " + src.Key()
+				continue
+			}
+			dl := linearOf(at.Args[1])
+			isOwn := dl.Const == 0 && len(dl.Coef) == 2
+			for k, co := range dl.Coef {
+				t := dl.Atoms[k]
+				if !(co == 1 && t.Key() == idx.Key() || co == -1 && t.Op == "field" && t.Sym == dr.offset && isRecvField(t.Args[0], ct.innerFld)) {
+					isOwn = false
+				}
+			}
+			isEdge := false
+			if lowest {
+				isEdge = at.Args[1].isConst("0")
+			} else {
+				isEdge = dl.Const == -1 && len(dl.Coef) == 1
+				for _, t := range dl.Atoms {
+					if !(t.Op == "builtin" && t.Sym == "len" && recvBins(t.Args[0])) {
+						isEdge = false
+					}
+				}
+			}
+			switch {
+			case isOwn:
+				nOwn++
+			case isEdge:
+				nEdge++
+				// the edge store must be guarded by "idx beyond the receiver's window": find a controlling condition
+				guarded := false
+				for d := b; d != nil; d = d.Idom() {
+					if iff, ok := d.Instrs[len(d.Instrs)-1].(*ssa.If); ok && d != b {
+						ctm := tc.Of(iff.Cond)
+						if ctm.isBin("<") {
+							x, y := ctm.Args[0], ctm.Args[1]
+							isRecvEdge := func(t *Term, fld string) bool {
+								return t.Op == "field" && t.Sym == fld && isRecvField(t.Args[0], ct.innerFld)
+							}
+							if lowest && x.Key() == idx.Key() && isRecvEdge(y, dr.minIndex) || !lowest && y.Key() == idx.Key() && isRecvEdge(x, dr.maxIndex) {
+								guarded = true
+							}
+						}
+					}
+				}
+				if !guarded {
+					bad = "argument bins are folded into the edge slot without testing that their index lies beyond the receiver's window"
+				}
+			default:
+				bad = "argument bin added to slot " + at.Args[1].Key() + " (neither its own index nor the edge slot)"
+			}
+		}
+	}
+	c.R.check(bad == "" && nEdge >= 1 && nOwn >= 1, rule, tname+".MergeWith/fold-into-edge", shortFn(f), c.fpos(f),
+		"every argument bin goes to the slot of its own index, or — only when its index lies beyond the receiver's collapsing edge — to the edge slot", firstNonEmpty(bad, fmt.Sprintf("%d edge store(s), %d own-slot store(s)", nEdge, nOwn)))
+
+	// adjust: on the too-wide paths the window becomes [newMax−len+1, newMax] (lowest) / [newMin, newMin+len−1] (highest)
+	adj := c.P.DeclaredMethod(ct.t, "adjust")
+	if adj == nil {
+		return
+	}
+	paths, _ := exec(c, adj, nil, 2)
+	nWide := 0
+	badW := ""
+	for _, p := range paths {
+		tooWide, have := pathCond(p, func(t *Term) bool {
+			return t.isBin("<") && t.Args[0].Op == "builtin" && t.Args[0].Sym == "len" && t.Args[1].contains("param:1") && t.Args[1].contains("param:2")
+		})
+		if !have || !tooWide {
+			continue
+		}
+		nWide++
+		var minV, maxV *Term
+		for _, e := range p.Effects {
+			if e.Kind == "store" && e.Addr.unver().Op == "field" && isRecvField(e.Addr.unver().Args[0], ct.innerFld) {
+				switch e.Addr.unver().Sym {
+				case dr.minIndex:
+					minV = e.Val
+				case dr.maxIndex:
+					maxV = e.Val
+				}
+			}
+		}
+		lenOK := func(l *Linear, sign int) bool { // contains sign·len(bins)
+			for k, co := range l.Coef {
+				t := l.Atoms[k].unver()
+				if t.Op == "builtin" && t.Sym == "len" && co == sign {
+					return true
+				}
+			}
+			return false
+		}
+		if lowest {
+			ok := maxV != nil && maxV.isParam(2) && minV != nil
+			if ok {
+				l := linearOf(minV) // newMax − len + 1
+				ok = l.Const == 1 && l.Coef["param:2"] == 1 && lenOK(l, -1) && len(l.Coef) == 2
+			}
+			if !ok {
+				badW = fmt.Sprintf("window after collapsing: min=%v max=%v", minV, maxV)
+			}
+		} else {
+			ok := minV != nil && minV.isParam(1) && maxV != nil
+			if ok {
+				l := linearOf(maxV) // newMin + len − 1
+				ok = l.Const == -1 && l.Coef["param:1"] == 1 && lenOK(l, 1) && len(l.Coef) == 2
+			}
+			if !ok {
+				badW = fmt.Sprintf("window after collapsing: min=%v max=%v", minV, maxV)
+			}
+		}
+	}
+	exp := "after a too-wide adjust: maxIndex = newMax and minIndex = newMax − len(bins) + 1 (the window spans exactly the array)"
+	if !lowest {
+		exp = "after a too-wide adjust: minIndex = newMin and maxIndex = newMin + len(bins) − 1 (the window spans exactly the array)"
+	}
+	c.R.check(badW == "" && nWide > 0, rule, tname+".adjust/window-equals-array", shortFn(adj), c.fpos(adj), exp, firstNonEmpty(badW, fmt.Sprintf("%d too-wide path(s)", nWide)))
 }
